@@ -527,6 +527,8 @@ def replay_job(job, lane=0):
         subprocess.run(["bash", "-c", shell], cwd=crate, env=env(), stdout=lf, stderr=subprocess.STDOUT)
     test = extract_playback_test(open(rlog, errors="replace").read())
     if not test:
+        # the playback run could not hand back the solver's assignment (e.g. CBMC ran out of
+        # memory while writing the JSON trace): inconclusive, never a pass
         shutil.rmtree(crate, ignore_errors=True)
         return path, None
     if h["twin"]:
